@@ -72,6 +72,25 @@ def read_field(data, pos):
     return fld, j
 
 
+def read_number_field(data, pos):
+    """A numeric field ends at a blank, a comma or a line end; the blanks after it and one delimiter are consumed."""
+    i = pos
+    while i < len(data) and data[i] == " ":
+        i += 1
+    j = i
+    while j < len(data) and data[j] not in " ,\r\n":
+        j += 1
+    fld = data[i:j]
+    while j < len(data) and data[j] == " ":
+        j += 1
+    if j < len(data) and data[j] in ",\r\n":
+        if data[j] == "\r" and j + 1 < len(data) and data[j + 1] == "\n":
+            j += 2
+        else:
+            j += 1
+    return fld, j
+
+
 def clean_int(s):
     if not s or len(s) > 5:
         return None
@@ -252,12 +271,16 @@ class Gen:
                     break
                 if data[pos:].strip(" ") == "":
                     return   # only blanks left: whether that is a field is not specified
-                fld, pos = read_field(data, pos)
-                iv = clean_int(fld)
+                nfld, npos = read_number_field(data, pos)
+                iv = clean_int(nfld)
                 if iv is not None and r.random() < 0.6:
+                    # a numeric variable takes the number up to the next blank, comma or line end
                     vars_.append("N%d%%" % i)
                     shown.append(num_text(iv))
+                    pos = npos
+                    self.features.add("input_number_ended_by_blank" if npos < len(data) and data[npos - 1] == " " else "input_number")
                 else:
+                    fld, pos = read_field(data, pos)
                     vars_.append("S%d$" % i)
                     shown.append("[" + fld + "]")
             if failed:
@@ -498,7 +521,14 @@ def hostile_text(rng):
 
 def console_file_pair(rng):
     text = hostile_text(rng)
-    kind = rng.choice(["line", "input", "input2", "mixed"])
+    kind = rng.choice(["line", "input", "input2", "mixed", "inputnum"])
+    if kind == "inputnum":
+        # numeric fields: blanks end a number
+        parts = []
+        for _ in range(rng.randrange(1, 5)):
+            ln = "".join(rng.choice(["1", "2", "30", " ", " ", ",", "-4", ".5", "  "]) for _ in range(rng.randrange(1, 7)))
+            parts.append(ln + rng.choice(["\r\n", "\n", "\r", ""]))
+        text = "".join(parts)
     reads_c, reads_f = [], []
     k = rng.randrange(1, 6)
     for i in range(k):
@@ -506,6 +536,9 @@ def console_file_pair(rng):
         if kk == "line":
             reads_c.append('LINE INPUT A$ : PRINT "<"; A$; ">"')
             reads_f.append('LINE INPUT #1, A$ : PRINT "<"; A$; ">"')
+        elif kk == "inputnum":
+            reads_c.append('INPUT N!, M! : PRINT "<"; N!; M!; ">"')
+            reads_f.append('INPUT #1, N!, M! : PRINT "<"; N!; M!; ">"')
         elif kk == "input":
             reads_c.append('INPUT A$ : PRINT "<"; A$; ">"')
             reads_f.append('INPUT #1, A$ : PRINT "<"; A$; ">"')
@@ -519,7 +552,7 @@ def console_file_pair(rng):
 
 def roundtrip(rng):
     """Write lines in two sessions (OUTPUT, then APPEND), read everything back until EOF."""
-    how = rng.choice(["line", "field"])
+    how = rng.choice(["line", "field", "numbers"])
     lines = []
     src = []
     h1, h2, h3 = rng.sample([1, 2, 3], 3)
@@ -544,6 +577,13 @@ def roundtrip(rng):
                 src.append("PRINT #%d, %s" % (h, "; ".join(parts)))
                 content += text + "\r\n"
                 expected += "[" + text + "]\r\n"
+            elif how == "numbers":
+                # numbers written with semicolons are separated by blanks only
+                vals = [rng.randrange(-999, 100000) for _ in range(rng.choice([1, 2, 3, 4]))]
+                src.append("PRINT #%d, %s" % (h, "; ".join(str(v) for v in vals)))
+                content += "".join(num_text(v) for v in vals) + "\r\n"
+                for v in vals:
+                    expected += "[" + num_text(v) + "]\r\n"
             else:
                 flds = []
                 for _ in range(rng.choice([1, 2, 3])):
@@ -560,8 +600,12 @@ def roundtrip(rng):
         src.append("CLOSE #%d" % h if rng.random() < 0.5 else "CLOSE")
     src.append('OPEN "%s" FOR INPUT AS #%d' % (name, h3))
     src.append("WHILE NOT EOF(%d)" % h3)
-    src.append(("  LINE INPUT #%d, L$" if how == "line" else "  INPUT #%d, L$") % h3)
-    src.append('  PRINT "["; L$; "]"')
+    if how == "numbers":
+        src.append("  INPUT #%d, N&" % h3)
+        src.append('  PRINT "["; N&; "]"')
+    else:
+        src.append(("  LINE INPUT #%d, L$" if how == "line" else "  INPUT #%d, L$") % h3)
+        src.append('  PRINT "["; L$; "]"')
     src.append("WEND")
     src.append('PRINT "eof"; EOF(%d)' % h3)
     src.append("CLOSE")
